@@ -218,358 +218,392 @@ def guess(func, data: bytes):
 
 
 def check(ctx):
-    # ================================ common.py primitives =======================================
-    cm = ctx.mod(CM)
-    fns = {n: ctx.func(CM, n) for n in ("NS", "getNS", "MP", "getMP")}
-    fmts = {}
-    # --- NS / MP writers: pack(fmt, len(X)) + X
+    _ok_pr = False; _ok_ky = False; _ok_dc = False; _ok_lw = False; _ok_v1 = False; _ok_pem = False; _ok_gs = False; curve_keys = []
+    with ctx.section('primitives/anchors'):
+        fns = {n: ctx.func(CM, n) for n in ("NS", "getNS", "MP", "getMP")}
+        fmts = {}
+        _ok_pr = True
     for name in ("NS", "MP"):
-        f = fns[name]
-        q = QC + name
-        rets = [st for st in statements(f) if isinstance(st, ast.Return) and st.value is not None]
-        main = [r for r in rets if any(isinstance(c, ast.Call) and call_name(c) in ("struct.pack", "pack") for c in ast.walk(r.value))]
-        ctx.need(main, f"{name}: return struct.pack(...) + bytes")
-        ops = flatten_add(main[0].value)
-        ok = len(ops) == 2 and isinstance(ops[0], ast.Call) and len(ops[0].args) == 2 and isinstance(ops[1], ast.Name) \
-            and src(ops[0].args[1]) == f"len({ops[1].id})"
-        ctx.check(ok, "primitive/length-of-what-is-appended", ctx.construct(q, main[0]),
-                  f"{name} does not emit pack(fmt, len(x)) + x for one and the same x: the length prefix can differ from the bytes that follow")
-        if ok:
-            fmts[name] = _c(ops[0].args[0])
-            ctx.check(struct_fmt_norm(fmts[name]) == ("big", "L"), "primitive/length-format", q, f"length prefix format {fmts[name]!r} is not a big-endian uint32 (RFC 4251 5)")
-            # every rebinding of x happens before the return: trivially true for straight-line code; check no rebinding of x after len() is not needed
-    # NS encodes str before measuring
-    f = fns["NS"]
-    tp = f.args.args[0].arg
-    enc = [st for st in statements(f) if isinstance(st, ast.Assign) and any(isinstance(t, ast.Name) and t.id == tp for t in st.targets)]
-    for st in enc:
-        ctx.check(isinstance(st.value, ast.Call) and call_attr(st.value) == "encode" and src(st.value.func.value) == tp, "primitive/length-of-what-is-appended",
-                  ctx.construct(QC + "NS", st), "NS rebinds its argument to something other than its encoding")
-    # --- getNS / getMP readers
+        with ctx.section(f"primitives/writer/{name}"):
+            ctx.need(_ok_pr, 'anchors of primitives (section skipped)')
+            f = fns[name]
+            q = QC + name
+            rets = [st for st in statements(f) if isinstance(st, ast.Return) and st.value is not None]
+            main = [r for r in rets if any(isinstance(c, ast.Call) and call_name(c) in ("struct.pack", "pack") for c in ast.walk(r.value))]
+            ctx.need(main, f"{name}: return struct.pack(...) + bytes")
+            ops = flatten_add(main[0].value)
+            ok = len(ops) == 2 and isinstance(ops[0], ast.Call) and len(ops[0].args) == 2 and isinstance(ops[1], ast.Name) \
+                and src(ops[0].args[1]) == f"len({ops[1].id})"
+            ctx.check(ok, "primitive/length-of-what-is-appended", ctx.construct(q, main[0]),
+                      f"{name} does not emit pack(fmt, len(x)) + x for one and the same x: the length prefix can differ from the bytes that follow")
+            if ok:
+                fmts[name] = _c(ops[0].args[0])
+                ctx.check(struct_fmt_norm(fmts[name]) == ("big", "L"), "primitive/length-format", q, f"length prefix format {fmts[name]!r} is not a big-endian uint32 (RFC 4251 5)")
+                # every rebinding of x happens before the return: trivially true for straight-line code; check no rebinding of x after len() is not needed
+    with ctx.section('primitives/NS-encodes-first'):
+        ctx.need(_ok_pr, 'anchors of primitives (section skipped)')
+        f = fns["NS"]
+        tp = f.args.args[0].arg
+        enc = [st for st in statements(f) if isinstance(st, ast.Assign) and any(isinstance(t, ast.Name) and t.id == tp for t in st.targets)]
+        for st in enc:
+            ctx.check(isinstance(st.value, ast.Call) and call_attr(st.value) == "encode" and src(st.value.func.value) == tp, "primitive/length-of-what-is-appended",
+                      ctx.construct(QC + "NS", st), "NS rebinds its argument to something other than its encoding")
     for name, wname in (("getNS", "NS"), ("getMP", "MP")):
-        f = fns[name]
-        q = QC + name
-        sp_, cp = f.args.args[0].arg, f.args.args[1].arg
-        ups = [c for c in ast.walk(f) if isinstance(c, ast.Call) and call_name(c) in ("struct.unpack", "unpack")]
-        ctx.need(len(ups) == 1 and len(ups[0].args) == 2, f"{name}: one struct.unpack")
-        rf = _c(ups[0].args[0])
-        W = struct.calcsize(rf) if isinstance(rf, str) else None
-        ctx.check(isinstance(rf, str) and wname in fmts and struct_fmt_norm(rf) == struct_fmt_norm(fmts[wname]), "primitive/format-agreement", q,
-                  f"{name} unpacks {rf!r} but {wname} packs {fmts.get(wname)!r}")
-        ust = ups[0]._parent
-        ctx.need(isinstance(ust, ast.Assign) and isinstance(ust.targets[0], ast.Tuple) and len(ust.targets[0].elts) == 1, f"{name}: (l,) = unpack")
-        lv = src(ust.targets[0].elts[0])
-        hs = _slice(ups[0].args[1])
-        cvs = [st.targets[0].id for st in f.body if isinstance(st, ast.Assign) and const_is(st.value, 0) and isinstance(st.targets[0], ast.Name)]
-        ctx.need(cvs and hs is not None, f"{name}: cursor and header slice")
-        cv = cvs[0]
-        ok = src(hs[0]) == sp_ and hs[1] is not None and hs[2] is not None and lin(hs[1]) == (frozenset({(cv, 1)}), 0) and lin(hs[2]) == (frozenset({(cv, 1)}), W)
-        ctx.check(ok, "primitive/offsets", ctx.construct(q, ust), f"the length prefix is not read from {sp_}[{cv}:{cv}+{W}]")
-        # body slice: the other slice of the source inside the loop
-        loops = [st for st in f.body if isinstance(st, ast.For)]
-        ctx.need(loops, f"{name}: for loop")
-        ctx.check(src(loops[0].iter) == f"range({cp})", "primitive/offsets", q + " | count", f"{name} does not iterate range({cp})")
-        bodies = [x for x in ast.walk(loops[0]) if _slice(x) and src(_slice(x)[0]) == sp_ and x is not ups[0].args[1]]
-        okb = len(bodies) == 1 and _slice(bodies[0])[1] is not None and _slice(bodies[0])[2] is not None \
-            and lin(_slice(bodies[0])[1]) == (frozenset({(cv, 1)}), W) and lin(_slice(bodies[0])[2]) == (frozenset({(cv, 1), (lv, 1)}), W)
-        ctx.check(okb, "primitive/offsets", q + " | body", f"the value is not {sp_}[{cv}+{W}:{cv}+{W}+{lv}]: bytes are skipped or shared between consecutive values")
-        adv = [st for st in ast.walk(loops[0]) if isinstance(st, ast.AugAssign) and isinstance(st.target, ast.Name) and st.target.id == cv]
-        oka = len(adv) == 1 and isinstance(adv[0].op, ast.Add) and lin(adv[0].value) == (frozenset({(lv, 1)}), W)
-        ctx.check(oka, "primitive/offsets", q + " | advance", f"the cursor does not advance by {W} + {lv}")
-        ret = [st for st in f.body if isinstance(st, ast.Return)]
-        okr = False
-        if ret:
-            ops = flatten_add(ret[0].value)
-            okr = len(ops) == 2 and isinstance(ops[0], ast.Call) and dotted(ops[0].func) == "tuple" and isinstance(ops[1], ast.Tuple) and len(ops[1].elts) == 1 \
-                and _slice(ops[1].elts[0]) and src(_slice(ops[1].elts[0])[0]) == sp_ and src(_slice(ops[1].elts[0])[1]) == cv and _slice(ops[1].elts[0])[2] is None
-            acc = ops[0].args[0].id if okr and isinstance(ops[0].args[0], ast.Name) else None
-            apps = [c for c in ast.walk(loops[0]) if isinstance(c, ast.Call) and call_name(c) == f"{acc}.append"]
-            okr = okr and len(apps) == 1
-        ctx.check(okr, "primitive/rest-returned", q, f"{name} does not return the values in order followed by the unread rest {sp_}[{cv}:]")
-        if name == "getMP":
-            fb = [c for c in ast.walk(f) if isinstance(c, ast.Call) and call_name(c) == "int.from_bytes"]
-            ctx.check(len(fb) == 1 and len(fb[0].args) == 2 and const_is(fb[0].args[1], "big") and not any(k.arg == "signed" and not const_is(k.value, False) for k in fb[0].keywords)
-                      and fb[0].args[0] is bodies[0] if okb else False, "primitive/mp-unsigned-big-endian", q, "getMP does not read the body as an unsigned big-endian integer")
-    # --- MP details
-    f = fns["MP"]
-    q = QC + "MP"
-    np_ = f.args.args[0].arg
-    zero = [st for st in f.body if isinstance(st, ast.If) and isinstance(st.test, ast.Compare) and src(st.test) == f"{np_} == 0"]
-    okz = bool(zero) and isinstance(zero[0].body[0], ast.Return) and "MP" in fmts and _c(zero[0].body[0].value) == struct.pack(fmts["MP"], 0)
-    ctx.check(okz, "primitive/mp-zero", q, "MP(0) is not the packed zero length (an empty mpint)")
-    pad = [st for st in f.body if isinstance(st, ast.If) and st not in zero]
-    ctx.need(pad, "MP: sign padding if")
-    bnv = [t.id for st in f.body if isinstance(st, ast.Assign) and isinstance(st.value, ast.Call) and call_attr(st.value) == "int_to_bytes" for t in st.targets if isinstance(t, ast.Name)]
-    ctx.need(bnv, "MP: bn = int_to_bytes(number)")
-    bn = bnv[0]
-    wrong = []
-    for v in range(256):
-        try:
-            got = bool(const_eval(pad[0].test, {bn: bytes((v, 1))}))
-        except NotConst as e:
-            need(ctx, False, f"MP padding test not evaluable ({e})")
-        if got != (v >= 128):
-            wrong.append(v)
-    ctx.check(not wrong, "primitive/mp-sign-padding", ctx.construct(q, pad[0].test),
-              f"a zero byte is prepended iff the leading byte is >= 0x80 fails for leading bytes {wrong[:4]}: such values decode as negative (other SSH "
-              "implementations) or carry a non-minimal encoding")
-    st = pad[0].body[0]
-    okp = isinstance(st, ast.Assign) and src(st.targets[0]) == bn and len(flatten_add(st.value)) == 2 and _c(flatten_add(st.value)[0]) == b"\0" and src(flatten_add(st.value)[1]) == bn
-    ctx.check(okp, "primitive/mp-sign-padding", ctx.construct(q, st), "the sign padding is not exactly one leading zero byte")
+        with ctx.section(f"primitives/reader/{name}"):
+            ctx.need(_ok_pr, 'anchors of primitives (section skipped)')
+            f = fns[name]
+            q = QC + name
+            sp_, cp = f.args.args[0].arg, f.args.args[1].arg
+            ups = [c for c in ast.walk(f) if isinstance(c, ast.Call) and call_name(c) in ("struct.unpack", "unpack")]
+            ctx.need(len(ups) == 1 and len(ups[0].args) == 2, f"{name}: one struct.unpack")
+            rf = _c(ups[0].args[0])
+            W = struct.calcsize(rf) if isinstance(rf, str) else None
+            ctx.check(isinstance(rf, str) and wname in fmts and struct_fmt_norm(rf) == struct_fmt_norm(fmts[wname]), "primitive/format-agreement", q,
+                      f"{name} unpacks {rf!r} but {wname} packs {fmts.get(wname)!r}")
+            ust = ups[0]._parent
+            ctx.need(isinstance(ust, ast.Assign) and isinstance(ust.targets[0], ast.Tuple) and len(ust.targets[0].elts) == 1, f"{name}: (l,) = unpack")
+            lv = src(ust.targets[0].elts[0])
+            hs = _slice(ups[0].args[1])
+            cvs = [st.targets[0].id for st in f.body if isinstance(st, ast.Assign) and const_is(st.value, 0) and isinstance(st.targets[0], ast.Name)]
+            ctx.need(cvs and hs is not None, f"{name}: cursor and header slice")
+            cv = cvs[0]
+            ok = src(hs[0]) == sp_ and hs[1] is not None and hs[2] is not None and lin(hs[1]) == (frozenset({(cv, 1)}), 0) and lin(hs[2]) == (frozenset({(cv, 1)}), W)
+            ctx.check(ok, "primitive/offsets", ctx.construct(q, ust), f"the length prefix is not read from {sp_}[{cv}:{cv}+{W}]")
+            # body slice: the other slice of the source inside the loop
+            loops = [st for st in f.body if isinstance(st, ast.For)]
+            ctx.need(loops, f"{name}: for loop")
+            ctx.check(src(loops[0].iter) == f"range({cp})", "primitive/offsets", q + " | count", f"{name} does not iterate range({cp})")
+            bodies = [x for x in ast.walk(loops[0]) if _slice(x) and src(_slice(x)[0]) == sp_ and x is not ups[0].args[1]]
+            okb = len(bodies) == 1 and _slice(bodies[0])[1] is not None and _slice(bodies[0])[2] is not None \
+                and lin(_slice(bodies[0])[1]) == (frozenset({(cv, 1)}), W) and lin(_slice(bodies[0])[2]) == (frozenset({(cv, 1), (lv, 1)}), W)
+            ctx.check(okb, "primitive/offsets", q + " | body", f"the value is not {sp_}[{cv}+{W}:{cv}+{W}+{lv}]: bytes are skipped or shared between consecutive values")
+            adv = [st for st in ast.walk(loops[0]) if isinstance(st, ast.AugAssign) and isinstance(st.target, ast.Name) and st.target.id == cv]
+            oka = len(adv) == 1 and isinstance(adv[0].op, ast.Add) and lin(adv[0].value) == (frozenset({(lv, 1)}), W)
+            ctx.check(oka, "primitive/offsets", q + " | advance", f"the cursor does not advance by {W} + {lv}")
+            ret = [st for st in f.body if isinstance(st, ast.Return)]
+            okr = False
+            if ret:
+                ops = flatten_add(ret[0].value)
+                okr = len(ops) == 2 and isinstance(ops[0], ast.Call) and dotted(ops[0].func) == "tuple" and isinstance(ops[1], ast.Tuple) and len(ops[1].elts) == 1 \
+                    and _slice(ops[1].elts[0]) and src(_slice(ops[1].elts[0])[0]) == sp_ and src(_slice(ops[1].elts[0])[1]) == cv and _slice(ops[1].elts[0])[2] is None
+                acc = ops[0].args[0].id if okr and isinstance(ops[0].args[0], ast.Name) else None
+                apps = [c for c in ast.walk(loops[0]) if isinstance(c, ast.Call) and call_name(c) == f"{acc}.append"]
+                okr = okr and len(apps) == 1
+            ctx.check(okr, "primitive/rest-returned", q, f"{name} does not return the values in order followed by the unread rest {sp_}[{cv}:]")
+            if name == "getMP":
+                fb = [c for c in ast.walk(f) if isinstance(c, ast.Call) and call_name(c) == "int.from_bytes"]
+                ctx.check(len(fb) == 1 and len(fb[0].args) == 2 and const_is(fb[0].args[1], "big") and not any(k.arg == "signed" and not const_is(k.value, False) for k in fb[0].keywords)
+                          and fb[0].args[0] is bodies[0] if okb else False, "primitive/mp-unsigned-big-endian", q, "getMP does not read the body as an unsigned big-endian integer")
+    with ctx.section('primitives/MP-details'):
+        ctx.need(_ok_pr, 'anchors of primitives (section skipped)')
+        f = fns["MP"]
+        q = QC + "MP"
+        np_ = f.args.args[0].arg
+        zero = [st for st in f.body if isinstance(st, ast.If) and isinstance(st.test, ast.Compare) and src(st.test) == f"{np_} == 0"]
+        okz = bool(zero) and isinstance(zero[0].body[0], ast.Return) and "MP" in fmts and _c(zero[0].body[0].value) == struct.pack(fmts["MP"], 0)
+        ctx.check(okz, "primitive/mp-zero", q, "MP(0) is not the packed zero length (an empty mpint)")
+        pad = [st for st in f.body if isinstance(st, ast.If) and st not in zero]
+        ctx.need(pad, "MP: sign padding if")
+        bnv = [t.id for st in f.body if isinstance(st, ast.Assign) and isinstance(st.value, ast.Call) and call_attr(st.value) == "int_to_bytes" for t in st.targets if isinstance(t, ast.Name)]
+        ctx.need(bnv, "MP: bn = int_to_bytes(number)")
+        bn = bnv[0]
+        wrong = []
+        for v in range(256):
+            try:
+                got = bool(const_eval(pad[0].test, {bn: bytes((v, 1))}))
+            except NotConst as e:
+                need(ctx, False, f"MP padding test not evaluable ({e})")
+            if got != (v >= 128):
+                wrong.append(v)
+        ctx.check(not wrong, "primitive/mp-sign-padding", ctx.construct(q, pad[0].test),
+                  f"a zero byte is prepended iff the leading byte is >= 0x80 fails for leading bytes {wrong[:4]}: such values decode as negative (other SSH "
+                  "implementations) or carry a non-minimal encoding")
+        st = pad[0].body[0]
+        okp = isinstance(st, ast.Assign) and src(st.targets[0]) == bn and len(flatten_add(st.value)) == 2 and _c(flatten_add(st.value)[0]) == b"\0" and src(flatten_add(st.value)[1]) == bn
+        ctx.check(okp, "primitive/mp-sign-padding", ctx.construct(q, st), "the sign padding is not exactly one leading zero byte")
 
-    # ================================ keys.py ====================================================
-    ky = ctx.mod(KY)
-    kcls = ctx.cls(KY, "Key")
-    km = methods(kcls)
-    # sshType table agrees with the frozen wire names
-    st_f = ctx.func(KY, "Key.sshType")
-    dicts = [d for d in ast.walk(st_f) if isinstance(d, ast.Dict)]
-    ctx.need(dicts, "sshType: literal table")
-    table = {_c(k): _c(v) for k, v in zip(dicts[0].keys, dicts[0].values)}
-    for t, w in WIRE.items():
-        if t != "EC":
-            ctx.check(table.get(t) == w, "keys/type-tags", f"{QK}sshType | {t}", f"sshType maps {t} to {table.get(t)!r}; RFC 4253/8709 name is {w!r}")
-    curve_keys = []
-    ct = ky.module_assign("_curveTable")
-    s2n = ky.module_assign("_secToNist")
-    ctx.need(isinstance(ct, ast.Dict) and isinstance(s2n, ast.Dict), "_curveTable / _secToNist")
-    curve_keys = [_c(k) for k in ct.keys]
-    nist = [_c(v) for v in s2n.values]
-    ctx.check(sorted(curve_keys) == sorted(b"ecdsa-sha2-" + n for n in nist), "keys/type-tags", "twisted.conch.ssh.keys._curveTable ~ _secToNist",
-              f"curve table keys {curve_keys} are not 'ecdsa-sha2-' + the NIST names {nist}: sshType() of an EC key is not a key of _curveTable and cannot be parsed back")
-    # data() components per class
-    data_f = ctx.func(KY, "Key.data")
-    comps = {}
-    for st in ast.walk(data_f):
-        if isinstance(st, ast.If) and isinstance(st.test, ast.Call) and dotted(st.test.func) == "isinstance" and isinstance(st.test.args[1], ast.Attribute):
-            cls_ = st.test.args[1].attr
-            for r in st.body:
-                if isinstance(r, ast.Return) and isinstance(r.value, ast.Dict) and cls_ in DATA_CLASS:
-                    comps[DATA_CLASS[cls_]] = {_c(k) for k in r.value.keys}
-    ctx.floor("keys/data-components", len(comps), 8, "data() branches")
+    with ctx.section('keys/anchors'):
+        ky = ctx.mod(KY)
+        kcls = ctx.cls(KY, "Key")
+        km = methods(kcls)
+        _ok_ky = True
+    with ctx.section('keys/type-tags'):
+        ctx.need(_ok_ky, 'anchors of keys (section skipped)')
+        st_f = ctx.func(KY, "Key.sshType")
+        dicts = [d for d in ast.walk(st_f) if isinstance(d, ast.Dict)]
+        ctx.need(dicts, "sshType: literal table")
+        table = {_c(k): _c(v) for k, v in zip(dicts[0].keys, dicts[0].values)}
+        for t, w in WIRE.items():
+            if t != "EC":
+                ctx.check(table.get(t) == w, "keys/type-tags", f"{QK}sshType | {t}", f"sshType maps {t} to {table.get(t)!r}; RFC 4253/8709 name is {w!r}")
+        curve_keys = []
+        ct = ky.module_assign("_curveTable")
+        s2n = ky.module_assign("_secToNist")
+        ctx.need(isinstance(ct, ast.Dict) and isinstance(s2n, ast.Dict), "_curveTable / _secToNist")
+        curve_keys = [_c(k) for k in ct.keys]
+        nist = [_c(v) for v in s2n.values]
+        ctx.check(sorted(curve_keys) == sorted(b"ecdsa-sha2-" + n for n in nist), "keys/type-tags", "twisted.conch.ssh.keys._curveTable ~ _secToNist",
+                  f"curve table keys {curve_keys} are not 'ecdsa-sha2-' + the NIST names {nist}: sshType() of an EC key is not a key of _curveTable and cannot be parsed back")
+    with ctx.section('keys/data-components'):
+        ctx.need(_ok_ky, 'anchors of keys (section skipped)')
+        data_f = ctx.func(KY, "Key.data")
+        comps = {}
+        for st in ast.walk(data_f):
+            if isinstance(st, ast.If) and isinstance(st.test, ast.Call) and dotted(st.test.func) == "isinstance" and isinstance(st.test.args[1], ast.Attribute):
+                cls_ = st.test.args[1].attr
+                for r in st.body:
+                    if isinstance(r, ast.Return) and isinstance(r.value, ast.Dict) and cls_ in DATA_CLASS:
+                        comps[DATA_CLASS[cls_]] = {_c(k) for k in r.value.keys}
+        ctx.floor("keys/data-components", len(comps), 8, "data() branches")
 
-    def check_components(q, t, vis, schema):
-        have = comps.get((t, vis), set())
-        for kind, nm in schema:
-            if isinstance(nm, str) and nm.startswith("data:"):
-                ctx.check(nm[5:] in have, "keys/data-components", f"{q} | {t} {nm[5:]}",
-                          f"the {vis} {t} serialiser reads data()[{nm[5:]!r}] which data() does not provide for that key class (KeyError)")
+        def check_components(q, t, vis, schema):
+            have = comps.get((t, vis), set())
+            for kind, nm in schema:
+                if isinstance(nm, str) and nm.startswith("data:"):
+                    ctx.check(nm[5:] in have, "keys/data-components", f"{q} | {t} {nm[5:]}",
+                              f"the {vis} {t} serialiser reads data()[{nm[5:]!r}] which data() does not provide for that key class (KeyError)")
 
-    pairs = [("blob", "_fromString_BLOB", "public", 1), ("privateBlob", "_fromString_PRIVATE_BLOB", "private", 1), ("_toString_AGENTV3", "_fromString_AGENTV3", "private", 0)]
-    n_schema = 0
+        pairs = [("blob", "_fromString_BLOB", "public", 1), ("privateBlob", "_fromString_PRIVATE_BLOB", "private", 1), ("_toString_AGENTV3", "_fromString_AGENTV3", "private", 0)]
+        n_schema_box = [0]
+        _ok_dc = True
     for wn, rn, vis, skip in pairs:
-        wf, rf_ = ctx.func(KY, f"Key.{wn}"), ctx.func(KY, f"Key.{rn}")
-        qw, qr = QK + wn, QK + rn
-        wb = type_branches(wf, "writer")
-        rb = type_branches(rf_, "reader")
-        ctx.need(wb and rb, f"type dispatch of {wn} / {rn}")
-        for t in sorted(wb):
-            ws = writer_schema(wb[t])
-            need(ctx, ws is not None, f"{wn}[{t}] schema")
-            tag = WIRE.get(t)
-            if not ctx.check(tag is not None, "keys/writer-types", f"{qw} | {t}", f"{wn} has a branch for an unknown key class {t!r}"):
-                continue
-            if skip:
-                first = ws[0]
-                oktag = first[0] == "NS" and (first[1] == tag if t != "EC" else first[1] == "data:curve")
-                ctx.check(oktag, "keys/type-tags", f"{qw} | {t} tag", f"the {t} {wn} does not start with NS({tag!r}); it starts with {first!r}")
-            check_components(qw, t, vis, ws)
-            if not ctx.check(tag in rb, "keys/every-written-type-is-readable", f"{qr} | {t}",
-                             f"{wn} can serialise a {t} key but {rn} has no branch for wire type {tag!r}: the key does not parse back"):
-                continue
-            rs = reader_schema(rb[tag])
-            need(ctx, rs is not None, f"{rn}[{tag}] schema")
-            wfields = ws[skip:]
-            n_schema += 1
-            ctx.check([k for k, _ in wfields] == [k for k, _ in rs], "keys/field-schema", f"{qw} ~ {rn} | {t}",
-                      f"{wn} writes {[k for k, _ in wfields]} for {t} but {rn} reads {[k for k, _ in rs]}: fields are mis-aligned")
-            if [k for k, _ in wfields] == [k for k, _ in rs]:
-                for i, ((k, wnm), (_, rnm)) in enumerate(zip(wfields, rs)):
-                    if k == "MP" and isinstance(wnm, str) and wnm.startswith("data:") and rnm is not None:
-                        ctx.check(wnm[5:] == rnm, "keys/field-order", f"{qw} ~ {rn} | {t} field {i}",
-                                  f"field {i} of a {t} key is written from component {wnm[5:]!r} but read as {rnm!r}: components are swapped")
-        # reader feeds the right constructor arguments (name = same name)
-        for tag, body in rb.items():
-            for c in ast.walk(ast.Module(body=list(body), type_ignores=[])):
-                if isinstance(c, ast.Call) and call_attr(c) in ("_fromRSAComponents", "_fromDSAComponents"):
-                    for kw in c.keywords:
-                        if isinstance(kw.value, ast.Name):
-                            ctx.check(kw.arg == kw.value.id, "keys/field-order", f"{qr} | {tag!r} {kw.arg}=",
-                                      f"{rn} passes the value read as {kw.value.id!r} as component {kw.arg!r}")
-    ctx.floor("keys/field-schema", n_schema, 9, "type branches compared")
-    # EC public blob: reader takes the last of the two NS fields (the point)
-    rb = type_branches(km["_fromString_BLOB"], "reader")
-    ecb = rb.get("<curve>", [])
-    subs = [x for x in ast.walk(ast.Module(body=list(ecb), type_ignores=[])) if isinstance(x, ast.Subscript) and isinstance(x.value, ast.Call) and call_attr(x.value) == "getNS"]
-    ctx.check(len(subs) == 1 and _c(subs[0].slice) == 1 and _c(subs[0].value.args[1]) == 2, "keys/field-schema", QK + "_fromString_BLOB | EC point",
-              "the EC point is not taken from the second of the two strings following the type tag")
-    # Ed25519 private: k is the first 32 bytes of k||a
-    rb = type_branches(km["_fromString_PRIVATE_BLOB"], "reader")
-    edb = rb.get(b"ssh-ed25519", [])
-    ks = [st for st in edb if isinstance(st, ast.Assign) and _slice(st.value) and _slice(st.value)[1] is None]
-    ctx.check(len(ks) == 1 and _c(_slice(ks[0].value)[2]) == 32, "keys/field-schema", QK + "_fromString_PRIVATE_BLOB | Ed25519 k",
-              "the Ed25519 private scalar is not the first 32 bytes of the 'k || a' string")
-    wb = type_branches(km["privateBlob"], "writer")
-    wsed = writer_schema(wb.get("Ed25519", []))
-    ctx.check(wsed is not None and wsed[-1] == ("NS", "data['k'] + data['a']"), "keys/field-schema", QK + "privateBlob | Ed25519 k||a", "Ed25519 private blob does not end with NS(k || a)")
+        with ctx.section(f"keys/schema/{wn}"):
+            ctx.need(_ok_dc, 'anchors of keys (section skipped)')
+            wf, rf_ = ctx.func(KY, f"Key.{wn}"), ctx.func(KY, f"Key.{rn}")
+            qw, qr = QK + wn, QK + rn
+            wb = type_branches(wf, "writer")
+            rb = type_branches(rf_, "reader")
+            ctx.need(wb and rb, f"type dispatch of {wn} / {rn}")
+            for t in sorted(wb):
+                ws = writer_schema(wb[t])
+                need(ctx, ws is not None, f"{wn}[{t}] schema")
+                tag = WIRE.get(t)
+                if not ctx.check(tag is not None, "keys/writer-types", f"{qw} | {t}", f"{wn} has a branch for an unknown key class {t!r}"):
+                    continue
+                if skip:
+                    first = ws[0]
+                    oktag = first[0] == "NS" and (first[1] == tag if t != "EC" else first[1] == "data:curve")
+                    ctx.check(oktag, "keys/type-tags", f"{qw} | {t} tag", f"the {t} {wn} does not start with NS({tag!r}); it starts with {first!r}")
+                check_components(qw, t, vis, ws)
+                if not ctx.check(tag in rb, "keys/every-written-type-is-readable", f"{qr} | {t}",
+                                 f"{wn} can serialise a {t} key but {rn} has no branch for wire type {tag!r}: the key does not parse back"):
+                    continue
+                rs = reader_schema(rb[tag])
+                need(ctx, rs is not None, f"{rn}[{tag}] schema")
+                wfields = ws[skip:]
+                n_schema_box[0] += 1
+                ctx.check([k for k, _ in wfields] == [k for k, _ in rs], "keys/field-schema", f"{qw} ~ {rn} | {t}",
+                          f"{wn} writes {[k for k, _ in wfields]} for {t} but {rn} reads {[k for k, _ in rs]}: fields are mis-aligned")
+                if [k for k, _ in wfields] == [k for k, _ in rs]:
+                    for i, ((k, wnm), (_, rnm)) in enumerate(zip(wfields, rs)):
+                        if k == "MP" and isinstance(wnm, str) and wnm.startswith("data:") and rnm is not None:
+                            ctx.check(wnm[5:] == rnm, "keys/field-order", f"{qw} ~ {rn} | {t} field {i}",
+                                      f"field {i} of a {t} key is written from component {wnm[5:]!r} but read as {rnm!r}: components are swapped")
+            # reader feeds the right constructor arguments (name = same name)
+            for tag, body in rb.items():
+                for c in ast.walk(ast.Module(body=list(body), type_ignores=[])):
+                    if isinstance(c, ast.Call) and call_attr(c) in ("_fromRSAComponents", "_fromDSAComponents"):
+                        for kw in c.keywords:
+                            if isinstance(kw.value, ast.Name):
+                                ctx.check(kw.arg == kw.value.id, "keys/field-order", f"{qr} | {tag!r} {kw.arg}=",
+                                          f"{rn} passes the value read as {kw.value.id!r} as component {kw.arg!r}")
+    with ctx.section('keys/schema-floor'):
+        ctx.floor("keys/field-schema", n_schema_box[0], 9, "type branches compared")
+    with ctx.section('keys/ec-point'):
+        ctx.need(_ok_ky, 'anchors of keys (section skipped)')
+        rb = type_branches(km["_fromString_BLOB"], "reader")
+        ecb = rb.get("<curve>", [])
+        subs = [x for x in ast.walk(ast.Module(body=list(ecb), type_ignores=[])) if isinstance(x, ast.Subscript) and isinstance(x.value, ast.Call) and call_attr(x.value) == "getNS"]
+        ctx.check(len(subs) == 1 and _c(subs[0].slice) == 1 and _c(subs[0].value.args[1]) == 2, "keys/field-schema", QK + "_fromString_BLOB | EC point",
+                  "the EC point is not taken from the second of the two strings following the type tag")
+    with ctx.section('keys/ed25519-private'):
+        ctx.need(_ok_ky, 'anchors of keys (section skipped)')
+        rb = type_branches(km["_fromString_PRIVATE_BLOB"], "reader")
+        edb = rb.get(b"ssh-ed25519", [])
+        ks = [st for st in edb if isinstance(st, ast.Assign) and _slice(st.value) and _slice(st.value)[1] is None]
+        ctx.check(len(ks) == 1 and _c(_slice(ks[0].value)[2]) == 32, "keys/field-schema", QK + "_fromString_PRIVATE_BLOB | Ed25519 k",
+                  "the Ed25519 private scalar is not the first 32 bytes of the 'k || a' string")
+        wb = type_branches(km["privateBlob"], "writer")
+        wsed = writer_schema(wb.get("Ed25519", []))
+        ctx.check(wsed is not None and wsed[-1] == ("NS", "data['k'] + data['a']"), "keys/field-schema", QK + "privateBlob | Ed25519 k||a", "Ed25519 private blob does not end with NS(k || a)")
 
-    # LSH
-    lw = lsh_writer(ctx.func(KY, "Key._toString_LSH"))
-    ctx.floor("keys/lsh", len(lw), 4, "sexpy.pack literals")
+    with ctx.section('keys/lsh-writer'):
+        ctx.need(_ok_ky, 'anchors of keys (section skipped)')
+        lw = lsh_writer(ctx.func(KY, "Key._toString_LSH"))
+        ctx.floor("keys/lsh", len(lw), 4, "sexpy.pack literals")
+        _ok_lw = True
     for rn, head in (("_fromString_PUBLIC_LSH", b"public-key"), ("_fromString_PRIVATE_LSH", b"private-key")):
-        rh, rt = lsh_reader(ctx.func(KY, f"Key.{rn}"))
-        qr = QK + rn
-        ctx.check(rh == head, "keys/lsh", qr + " | head", f"{rn} asserts head {rh!r}, expected {head!r}")
-        written = {tn: fl for (h, tn), fl in lw.items() if h == head}
-        ctx.check(bool(written), "keys/lsh", QK + f"_toString_LSH | {head!r}", f"_toString_LSH never writes a {head!r} expression")
-        for tn, fl in sorted(written.items()):
-            names = [n for n, v in fl]
-            if not ctx.check(tn in rt, "keys/every-written-type-is-readable", f"{qr} | {tn!r}",
-                             f"_toString_LSH writes key type {tn!r} under {head!r} but {rn} has no branch for it"):
-                continue
-            used, n = rt[tn]
-            ctx.check(used <= set(names), "keys/lsh", f"{qr} | {tn!r} fields", f"{rn} needs fields {sorted(used - set(names))} that _toString_LSH does not write for {tn!r}")
-            ctx.check(n is None or n == len(names), "keys/lsh", f"{qr} | {tn!r} count", f"{rn} asserts {n} fields for {tn!r}; _toString_LSH writes {len(names)}")
-            for nm, v in fl:
-                sl = _slice(v)
-                ctx.check(sl is not None and isinstance(sl[0], ast.Call) and call_attr(sl[0]) == "MP" and _c(sl[1]) == 4 and sl[2] is None, "keys/lsh",
-                          f"{QK}_toString_LSH | {head!r} {tn!r} {nm!r}", "an LSH number is not MP(x)[4:] (mpint body without its length prefix, re-prefixed by the reader)")
+        with ctx.section(f"keys/lsh/{rn}"):
+            ctx.need(_ok_lw, 'anchors of keys (section skipped)')
+            rh, rt = lsh_reader(ctx.func(KY, f"Key.{rn}"))
+            qr = QK + rn
+            ctx.check(rh == head, "keys/lsh", qr + " | head", f"{rn} asserts head {rh!r}, expected {head!r}")
+            written = {tn: fl for (h, tn), fl in lw.items() if h == head}
+            ctx.check(bool(written), "keys/lsh", QK + f"_toString_LSH | {head!r}", f"_toString_LSH never writes a {head!r} expression")
+            for tn, fl in sorted(written.items()):
+                names = [n for n, v in fl]
+                if not ctx.check(tn in rt, "keys/every-written-type-is-readable", f"{qr} | {tn!r}",
+                                 f"_toString_LSH writes key type {tn!r} under {head!r} but {rn} has no branch for it"):
+                    continue
+                used, n = rt[tn]
+                ctx.check(used <= set(names), "keys/lsh", f"{qr} | {tn!r} fields", f"{rn} needs fields {sorted(used - set(names))} that _toString_LSH does not write for {tn!r}")
+                ctx.check(n is None or n == len(names), "keys/lsh", f"{qr} | {tn!r} count", f"{rn} asserts {n} fields for {tn!r}; _toString_LSH writes {len(names)}")
+                for nm, v in fl:
+                    sl = _slice(v)
+                    ctx.check(sl is not None and isinstance(sl[0], ast.Call) and call_attr(sl[0]) == "MP" and _c(sl[1]) == 4 and sl[2] is None, "keys/lsh",
+                              f"{QK}_toString_LSH | {head!r} {tn!r} {nm!r}", "an LSH number is not MP(x)[4:] (mpint body without its length prefix, re-prefixed by the reader)")
 
-    # ---- containers: openssh-key-v1 ----------------------------------------------------------------
-    wv, rv = ctx.func(KY, "Key._toPrivateOpenSSH_v1"), ctx.func(KY, "Key._fromPrivateOpenSSH_v1")
-    qw, qr = QK + "_toPrivateOpenSSH_v1", QK + "_fromPrivateOpenSSH_v1"
+    with ctx.section('v1/anchors'):
+        ctx.need(_ok_ky, 'anchors of v1 (section skipped)')
+        wv, rv = ctx.func(KY, "Key._toPrivateOpenSSH_v1"), ctx.func(KY, "Key._fromPrivateOpenSSH_v1")
+        qw, qr = QK + "_toPrivateOpenSSH_v1", QK + "_fromPrivateOpenSSH_v1"
 
-    def consts_assigned(f, name):
-        return [_c(st.value) for st in ast.walk(f) if isinstance(st, ast.Assign) and any(isinstance(t, ast.Name) and t.id == name for t in st.targets)]
-    wmag = [c.value for c in ast.walk(wv) if isinstance(c, ast.Constant) and isinstance(c.value, bytes) and c.value.startswith(b"openssh-key")]
-    rmag = [c.value for c in ast.walk(rv) if isinstance(c, ast.Constant) and isinstance(c.value, bytes) and c.value.startswith(b"openssh-key")]
-    ctx.check(len(set(wmag)) == 1 and set(rmag) == set(wmag) and len(rmag) >= 2, "container/v1-magic", qw + " ~ _fromPrivateOpenSSH_v1",
-              f"magic written {wmag} vs checked/stripped {rmag}")
-    wc = [c for c in consts_assigned(wv, "cipherName") if c and c != b"none"]
-    rc = set()
-    for t in ast.walk(rv):
-        if isinstance(t, ast.Compare) and src(t.left) == "cipher" and isinstance(t.ops[0], ast.In):
-            rc |= set(_c(t.comparators[0]) or ())
-    for c in wc:
-        ctx.check(c in rc, "container/v1-cipher", f"{qw} | {c!r}", f"private keys are encrypted with {c!r} but the reader only accepts {sorted(rc)}")
-        # key size: reader derives it from the name
-        ks_r = [st.value for st in ast.walk(rv) if isinstance(st, ast.Assign) and src(st.targets[0]) == "keySize"]
-        ks_w = [x for x in consts_assigned(wv, "keySize") if isinstance(x, int)]
-        ok = bool(ks_r) and bool(ks_w) and _c(ks_r[0], {"cipher": c}) == ks_w[0]
-        ctx.check(ok, "container/v1-cipher", f"{qw} | {c!r} key size", f"writer uses a {ks_w} byte key, reader derives {_c(ks_r[0], {'cipher': c}) if ks_r else None} from the cipher name")
-    ctx.floor("container/v1-cipher", len(wc), 1)
-    wk = [c for c in consts_assigned(wv, "kdfName") if c and c != b"none"]
-    rk = {_c(t.comparators[0]) for t in ast.walk(rv) if isinstance(t, ast.Compare) and src(t.left) == "kdf" and isinstance(t.ops[0], ast.Eq)}
-    for k in wk:
-        ctx.check(k in rk, "container/v1-kdf", f"{qw} | {k!r}", f"KDF {k!r} is written but the reader only knows {sorted(x for x in rk if x)}")
-    rounds_w = [x for x in consts_assigned(wv, "rounds") if isinstance(x, int)]
-    kdfc = [c for c in ast.walk(wv) if isinstance(c, ast.Call) and call_name(c) == "bcrypt.kdf"]
-    okr = len(kdfc) == 1 and len(kdfc[0].args) >= 4 and bool(rounds_w) and (_c(kdfc[0].args[3]) == rounds_w[0] or src(kdfc[0].args[3]) == "rounds")
-    ctx.check(okr, "container/v1-kdf", qw + " | rounds", "the number of bcrypt rounds recorded in the file differs from the number used to derive the key")
-    for f_, q_ in ((wv, qw), (rv, qr)):
-        kc = [c for c in ast.walk(f_) if isinstance(c, ast.Call) and call_name(c) == "bcrypt.kdf"]
-        ok = len(kc) == 1 and src(kc[0].args[2]) == "keySize + ivSize"
-        cip = [c for c in ast.walk(f_) if isinstance(c, ast.Call) and call_name(c) == "Cipher"]
-        ok = ok and len(cip) == 1 and "[:keySize]" in src(cip[0].args[0]) and "[keySize:keySize + ivSize]" in src(cip[0].args[1]) and "modes.CTR" in src(cip[0].args[1])
-        ctx.check(ok, "container/v1-cipher", q_ + " | key/iv split", "key and IV are not derived as kdf(..)[:keySize] and [keySize:keySize+ivSize] in CTR mode")
-    # outer field order
-    blob_st = [st for st in wv.body if isinstance(st, ast.Assign) and src(st.targets[0]) == "blob"]
-    ctx.need(blob_st, "_toPrivateOpenSSH_v1: blob = ...")
-    wseq = []
-    for o in flatten_add(blob_st[0].value):
-        if isinstance(o, ast.Call) and call_attr(o) == "NS":
-            wseq.append("NS")
-        elif isinstance(o, ast.Call) and call_name(o) == "struct.pack":
-            wseq.append("U32=" + src(o.args[1]))
-        elif isinstance(o, ast.Constant):
-            wseq.append("MAGIC")
-        else:
-            wseq.append("?" + src(o)[:20])
-    rseq = ["MAGIC"]
-    def top_level(c):
-        n = c
-        while not isinstance(n, ast.stmt):
-            n = n._parent
-        return n._parent is rv
-    for c in [c for c in _ordered_calls(rv, ("getNS", "struct.unpack")) if top_level(c)]:
-        if call_attr(c) == "getNS" and src(c.args[0]).startswith(("keyList", "rest")):
-            rseq += ["NS"] * (_c(c.args[1]) if len(c.args) > 1 else 1)
-        elif call_name(c) == "struct.unpack" and src(c.args[1]).startswith("rest"):
-            rseq.append("U32=1")
-    ctx.check(wseq == rseq, "container/v1-field-order", qw + " ~ _fromPrivateOpenSSH_v1", f"writer lays out {wseq}, reader consumes {rseq}")
-    nkeys = [t for t in ast.walk(rv) if isinstance(t, ast.Compare) and src(t.left) == "n" and isinstance(t.ops[0], ast.NotEq)]
-    ctx.check(bool(nkeys) and _c(nkeys[0].comparators[0]) == 1, "container/v1-field-order", qr + " | key count", "reader does not insist on exactly the one key the writer stores")
-    # inner list: check || check || privateBlob || comment
-    pk = [st for st in wv.body if isinstance(st, ast.Assign) and src(st.targets[0]) == "privKeyList"]
-    ctx.need(pk, "_toPrivateOpenSSH_v1: privKeyList = ...")
-    ops = flatten_add(pk[0].value)
-    chk = [c for c in consts_assigned(wv, "check")]
-    chk_call = [st.value for st in wv.body if isinstance(st, ast.Assign) and src(st.targets[0]) == "check"]
-    n_chk = _c(chk_call[0].args[0]) if chk_call and isinstance(chk_call[0], ast.Call) and chk_call[0].args else None
-    okw = len(ops) == 4 and src(ops[0]) == "check" and src(ops[1]) == "check" and src(ops[2]) == "self.privateBlob()" and isinstance(ops[3], ast.Call) and call_attr(ops[3]) == "NS"
-    ctx.check(okw and n_chk == 4, "container/v1-check-words", ctx.construct(qw, pk[0]), "the decrypted list is not check || check || privateBlob || NS(comment) with a 4-byte check word")
-    rsl = sorted((src(c.args[1]) for c in ast.walk(rv) if isinstance(c, ast.Call) and call_name(c) == "struct.unpack" and src(c.args[1]).startswith("privKeyList")))
-    fin = [c for c in ast.walk(rv) if isinstance(c, ast.Call) and call_attr(c) == "_fromString_PRIVATE_BLOB"]
-    cmpc = [t for t in ast.walk(rv) if isinstance(t, ast.Compare) and {src(t.left), src(t.comparators[0])} == {"check1", "check2"} and isinstance(t.ops[0], ast.NotEq)]
-    ctx.check(rsl == ["privKeyList[4:8]", "privKeyList[:4]"] and len(fin) == 1 and src(fin[0].args[0]) == "privKeyList[8:]" and bool(cmpc), "container/v1-check-words", qr,
-              "reader does not compare the two 4-byte check words and parse the private blob from offset 8")
-    # PEM kinds
-    pem_r = ctx.func(KY, "Key._fromPrivateOpenSSH_PEM")
-    kinds = set()
-    for t in ast.walk(pem_r):
-        if isinstance(t, ast.Compare) and src(t.left) == "kind" and isinstance(t.ops[0], ast.In):
-            kinds |= set(_c(t.comparators[0]) or ())
-    pem_w = ctx.func(KY, "Key._toPrivateOpenSSH_PEM")
-    excl = {_c(t.comparators[0]) for t in ast.walk(pem_w) if isinstance(t, ast.Compare) and src(t.left) == "self.type()" and isinstance(t.ops[0], ast.NotEq)}
-    writes = {t.encode() for t in WIRE if t not in excl}
-    ctx.check(writes <= kinds, "container/pem-kinds", QK + "_toPrivateOpenSSH_PEM ~ _fromPrivateOpenSSH_PEM",
-              f"PEM is written for key classes {sorted(writes)} but only {sorted(kinds)} are read back")
+        def consts_assigned(f, name):
+            return [_c(st.value) for st in ast.walk(f) if isinstance(st, ast.Assign) and any(isinstance(t, ast.Name) and t.id == name for t in st.targets)]
+        _ok_v1 = True
+    with ctx.section('v1/names-and-sizes'):
+        ctx.need(_ok_v1, 'anchors of v1 (section skipped)')
+        wmag = [c.value for c in ast.walk(wv) if isinstance(c, ast.Constant) and isinstance(c.value, bytes) and c.value.startswith(b"openssh-key")]
+        rmag = [c.value for c in ast.walk(rv) if isinstance(c, ast.Constant) and isinstance(c.value, bytes) and c.value.startswith(b"openssh-key")]
+        ctx.check(len(set(wmag)) == 1 and set(rmag) == set(wmag) and len(rmag) >= 2, "container/v1-magic", qw + " ~ _fromPrivateOpenSSH_v1",
+                  f"magic written {wmag} vs checked/stripped {rmag}")
+        wc = [c for c in consts_assigned(wv, "cipherName") if c and c != b"none"]
+        rc = set()
+        for t in ast.walk(rv):
+            if isinstance(t, ast.Compare) and src(t.left) == "cipher" and isinstance(t.ops[0], ast.In):
+                rc |= set(_c(t.comparators[0]) or ())
+        for c in wc:
+            ctx.check(c in rc, "container/v1-cipher", f"{qw} | {c!r}", f"private keys are encrypted with {c!r} but the reader only accepts {sorted(rc)}")
+            # key size: reader derives it from the name
+            ks_r = [st.value for st in ast.walk(rv) if isinstance(st, ast.Assign) and src(st.targets[0]) == "keySize"]
+            ks_w = [x for x in consts_assigned(wv, "keySize") if isinstance(x, int)]
+            ok = bool(ks_r) and bool(ks_w) and _c(ks_r[0], {"cipher": c}) == ks_w[0]
+            ctx.check(ok, "container/v1-cipher", f"{qw} | {c!r} key size", f"writer uses a {ks_w} byte key, reader derives {_c(ks_r[0], {'cipher': c}) if ks_r else None} from the cipher name")
+        ctx.floor("container/v1-cipher", len(wc), 1)
+        wk = [c for c in consts_assigned(wv, "kdfName") if c and c != b"none"]
+        rk = {_c(t.comparators[0]) for t in ast.walk(rv) if isinstance(t, ast.Compare) and src(t.left) == "kdf" and isinstance(t.ops[0], ast.Eq)}
+        for k in wk:
+            ctx.check(k in rk, "container/v1-kdf", f"{qw} | {k!r}", f"KDF {k!r} is written but the reader only knows {sorted(x for x in rk if x)}")
+        rounds_w = [x for x in consts_assigned(wv, "rounds") if isinstance(x, int)]
+        kdfc = [c for c in ast.walk(wv) if isinstance(c, ast.Call) and call_name(c) == "bcrypt.kdf"]
+        okr = len(kdfc) == 1 and len(kdfc[0].args) >= 4 and bool(rounds_w) and (_c(kdfc[0].args[3]) == rounds_w[0] or src(kdfc[0].args[3]) == "rounds")
+        ctx.check(okr, "container/v1-kdf", qw + " | rounds", "the number of bcrypt rounds recorded in the file differs from the number used to derive the key")
+        for f_, q_ in ((wv, qw), (rv, qr)):
+            kc = [c for c in ast.walk(f_) if isinstance(c, ast.Call) and call_name(c) == "bcrypt.kdf"]
+            ok = len(kc) == 1 and src(kc[0].args[2]) == "keySize + ivSize"
+            cip = [c for c in ast.walk(f_) if isinstance(c, ast.Call) and call_name(c) == "Cipher"]
+            ok = ok and len(cip) == 1 and "[:keySize]" in src(cip[0].args[0]) and "[keySize:keySize + ivSize]" in src(cip[0].args[1]) and "modes.CTR" in src(cip[0].args[1])
+            ctx.check(ok, "container/v1-cipher", q_ + " | key/iv split", "key and IV are not derived as kdf(..)[:keySize] and [keySize:keySize+ivSize] in CTR mode")
+    with ctx.section('v1/field-order'):
+        ctx.need(_ok_v1, 'anchors of v1 (section skipped)')
+        blob_st = [st for st in wv.body if isinstance(st, ast.Assign) and src(st.targets[0]) == "blob"]
+        ctx.need(blob_st, "_toPrivateOpenSSH_v1: blob = ...")
+        wseq = []
+        for o in flatten_add(blob_st[0].value):
+            if isinstance(o, ast.Call) and call_attr(o) == "NS":
+                wseq.append("NS")
+            elif isinstance(o, ast.Call) and call_name(o) == "struct.pack":
+                wseq.append("U32=" + src(o.args[1]))
+            elif isinstance(o, ast.Constant):
+                wseq.append("MAGIC")
+            else:
+                wseq.append("?" + src(o)[:20])
+        rseq = ["MAGIC"]
+        def top_level(c):
+            n = c
+            while not isinstance(n, ast.stmt):
+                n = n._parent
+            return n._parent is rv
+        for c in [c for c in _ordered_calls(rv, ("getNS", "struct.unpack")) if top_level(c)]:
+            if call_attr(c) == "getNS" and src(c.args[0]).startswith(("keyList", "rest")):
+                rseq += ["NS"] * (_c(c.args[1]) if len(c.args) > 1 else 1)
+            elif call_name(c) == "struct.unpack" and src(c.args[1]).startswith("rest"):
+                rseq.append("U32=1")
+        ctx.check(wseq == rseq, "container/v1-field-order", qw + " ~ _fromPrivateOpenSSH_v1", f"writer lays out {wseq}, reader consumes {rseq}")
+        nkeys = [t for t in ast.walk(rv) if isinstance(t, ast.Compare) and src(t.left) == "n" and isinstance(t.ops[0], ast.NotEq)]
+        ctx.check(bool(nkeys) and _c(nkeys[0].comparators[0]) == 1, "container/v1-field-order", qr + " | key count", "reader does not insist on exactly the one key the writer stores")
+    with ctx.section('v1/check-words'):
+        ctx.need(_ok_v1, 'anchors of v1 (section skipped)')
+        pk = [st for st in wv.body if isinstance(st, ast.Assign) and src(st.targets[0]) == "privKeyList"]
+        ctx.need(pk, "_toPrivateOpenSSH_v1: privKeyList = ...")
+        ops = flatten_add(pk[0].value)
+        chk = [c for c in consts_assigned(wv, "check")]
+        chk_call = [st.value for st in wv.body if isinstance(st, ast.Assign) and src(st.targets[0]) == "check"]
+        n_chk = _c(chk_call[0].args[0]) if chk_call and isinstance(chk_call[0], ast.Call) and chk_call[0].args else None
+        okw = len(ops) == 4 and src(ops[0]) == "check" and src(ops[1]) == "check" and src(ops[2]) == "self.privateBlob()" and isinstance(ops[3], ast.Call) and call_attr(ops[3]) == "NS"
+        ctx.check(okw and n_chk == 4, "container/v1-check-words", ctx.construct(qw, pk[0]), "the decrypted list is not check || check || privateBlob || NS(comment) with a 4-byte check word")
+        rsl = sorted((src(c.args[1]) for c in ast.walk(rv) if isinstance(c, ast.Call) and call_name(c) == "struct.unpack" and src(c.args[1]).startswith("privKeyList")))
+        fin = [c for c in ast.walk(rv) if isinstance(c, ast.Call) and call_attr(c) == "_fromString_PRIVATE_BLOB"]
+        cmpc = [t for t in ast.walk(rv) if isinstance(t, ast.Compare) and {src(t.left), src(t.comparators[0])} == {"check1", "check2"} and isinstance(t.ops[0], ast.NotEq)]
+        ctx.check(rsl == ["privKeyList[4:8]", "privKeyList[:4]"] and len(fin) == 1 and src(fin[0].args[0]) == "privKeyList[8:]" and bool(cmpc), "container/v1-check-words", qr,
+                  "reader does not compare the two 4-byte check words and parse the private blob from offset 8")
+    with ctx.section('pem-kinds'):
+        ctx.need(_ok_ky, 'anchors of pem-kinds (section skipped)')
+        pem_r = ctx.func(KY, "Key._fromPrivateOpenSSH_PEM")
+        kinds = set()
+        for t in ast.walk(pem_r):
+            if isinstance(t, ast.Compare) and src(t.left) == "kind" and isinstance(t.ops[0], ast.In):
+                kinds |= set(_c(t.comparators[0]) or ())
+        pem_w = ctx.func(KY, "Key._toPrivateOpenSSH_PEM")
+        excl = {_c(t.comparators[0]) for t in ast.walk(pem_w) if isinstance(t, ast.Compare) and src(t.left) == "self.type()" and isinstance(t.ops[0], ast.NotEq)}
+        writes = {t.encode() for t in WIRE if t not in excl}
+        ctx.check(writes <= kinds, "container/pem-kinds", QK + "_toPrivateOpenSSH_PEM ~ _fromPrivateOpenSSH_PEM",
+                  f"PEM is written for key classes {sorted(writes)} but only {sorted(kinds)} are read back")
 
-    # ---- dispatch names ---------------------------------------------------------------------------
-    gf = ctx.func(KY, "Key._guessStringType")
-    names = {r.value.value for r in ast.walk(gf) if isinstance(r, ast.Return) and isinstance(r.value, ast.Constant) and isinstance(r.value.value, str)}
-    ctx.floor("dispatch/guess-names", len(names), 5)
-    for n in sorted(names):
-        ctx.check(f"_fromString_{n.upper()}" in km, "dispatch/guess-names", f"{QK}_guessStringType | {n!r}", f"_guessStringType returns {n!r} but Key has no _fromString_{n.upper()}")
-    tos = sorted(n[len("_toString_"):] for n in km if n.startswith("_toString_"))
-    parsers = {"OPENSSH": ["_fromString_PUBLIC_OPENSSH", "_fromString_PRIVATE_OPENSSH"], "LSH": ["_fromString_PUBLIC_LSH", "_fromString_PRIVATE_LSH"], "AGENTV3": ["_fromString_AGENTV3"]}
-    for t in tos:
-        ctx.check(t in parsers and all(p in km for p in parsers[t]), "dispatch/format-has-parser", f"{QK}_toString_{t}", f"format {t} can be written but has no parser(s) {parsers.get(t)}")
-    ctx.floor("dispatch/format-has-parser", len(tos), 3)
-    n_calls = 0
-    for name, fn in km.items():
-        for c in ast.walk(fn):
-            if isinstance(c, ast.Call) and isinstance(c.func, ast.Attribute) and isinstance(c.func.value, ast.Name) and c.func.value.id in ("self", "cls") \
-                    and (c.func.attr.startswith("_from") or c.func.attr.startswith("_to")):
-                n_calls += 1
-                ctx.check(c.func.attr in km, "dispatch/helper-exists", f"{QK}{name} | {c.func.attr}", f"{name} calls {c.func.attr} which Key does not define")
-    ctx.floor("dispatch/helper-exists", n_calls, 15)
-    # what the writers emit is recognised as the matching parser
-    tags = [w for t, w in WIRE.items() if t != "EC"] + curve_keys
-    for tag in tags:
-        ctx.check(guess(gf, tag + b" AAAAB3Nza comment") == "public_openssh", "dispatch/guess-recognises-written", f"{QK}_guessStringType | {tag!r} text",
-                  f"a public OpenSSH line starting with {tag!r} is classified as {guess(gf, tag + b' AAAA')!r}")
-        blobhead = struct.pack(">L", len(tag)) + tag + b"\0\0\0\1\1"
-        ctx.check(guess(gf, blobhead) == "agentv3|blob", "dispatch/guess-recognises-written", f"{QK}_guessStringType | {tag!r} blob",
-                  f"a binary blob starting with NS({tag!r}) is classified as {guess(gf, blobhead)!r}")
-    armour = [c.value for c in ast.walk(wv) if isinstance(c, ast.Constant) and isinstance(c.value, bytes) and c.value.startswith(b"-----BEGIN")]
-    ctx.need(armour, "v1 BEGIN line")
-    ctx.check(guess(gf, armour[0] + b"\nAAAA\n") == "private_openssh", "dispatch/guess-recognises-written", f"{QK}_guessStringType | v1 armour", "the v1 armour line is not classified private_openssh")
-    po = ctx.func(KY, "Key._fromString_PRIVATE_OPENSSH")
-    disc = [t for t in ast.walk(po) if isinstance(t, ast.Compare) and isinstance(t.ops[0], ast.Eq) and isinstance(t.left, ast.Subscript) and isinstance(t.comparators[0], ast.Constant)]
-    okd = False
-    if disc and _slice(disc[0].left):
-        lo, hi = _c(_slice(disc[0].left)[1]), _c(_slice(disc[0].left)[2])
-        okd = armour[0][lo:hi] == disc[0].comparators[0].value
-        kl = [st.value for st in ast.walk(pem_r) if isinstance(st, ast.Assign) and src(st.targets[0]) == "kind"]
-        okd = okd and bool(kl) and _slice(kl[0]) is not None and (_c(_slice(kl[0])[1]), _c(_slice(kl[0])[2])) == (lo, hi) \
-            and all((b"-----BEGIN " + k + b" PRIVATE KEY-----")[lo:hi] == k for k in kinds)
-    ctx.check(okd, "dispatch/guess-recognises-written", QK + "_fromString_PRIVATE_OPENSSH | v1 vs PEM",
-              "the armour-line slice that tells v1 from PEM (and names the PEM kind) does not extract 'OPENSSH' / the kind from '-----BEGIN <kind> PRIVATE KEY-----'")
-    lshw = ctx.func(KY, "Key._toString_LSH")
-    br = [c.value for r in ast.walk(lshw) if isinstance(r, ast.Return) and r.value is not None for c in flatten_add(r.value)[:1] if isinstance(c, ast.Constant)]
-    ctx.check(bool(br) and guess(gf, br[0] + b"KDEwOnB1YmxpYy1rZXk=}") == "public_lsh", "dispatch/guess-recognises-written", f"{QK}_guessStringType | LSH public", "a public LSH key ({...}) is not classified public_lsh")
-    ctx.check(guess(gf, b"(11:private-key(3:dsa") == "private_lsh", "dispatch/guess-recognises-written", f"{QK}_guessStringType | LSH private", "a private LSH s-expression is not classified private_lsh")
+        _ok_pem = True
+    with ctx.section('dispatch/names'):
+        ctx.need(_ok_ky, 'anchors of dispatch (section skipped)')
+        gf = ctx.func(KY, "Key._guessStringType")
+        names = {r.value.value for r in ast.walk(gf) if isinstance(r, ast.Return) and isinstance(r.value, ast.Constant) and isinstance(r.value.value, str)}
+        ctx.floor("dispatch/guess-names", len(names), 5)
+        for n in sorted(names):
+            ctx.check(f"_fromString_{n.upper()}" in km, "dispatch/guess-names", f"{QK}_guessStringType | {n!r}", f"_guessStringType returns {n!r} but Key has no _fromString_{n.upper()}")
+        tos = sorted(n[len("_toString_"):] for n in km if n.startswith("_toString_"))
+        parsers = {"OPENSSH": ["_fromString_PUBLIC_OPENSSH", "_fromString_PRIVATE_OPENSSH"], "LSH": ["_fromString_PUBLIC_LSH", "_fromString_PRIVATE_LSH"], "AGENTV3": ["_fromString_AGENTV3"]}
+        for t in tos:
+            ctx.check(t in parsers and all(p in km for p in parsers[t]), "dispatch/format-has-parser", f"{QK}_toString_{t}", f"format {t} can be written but has no parser(s) {parsers.get(t)}")
+        ctx.floor("dispatch/format-has-parser", len(tos), 3)
+        n_calls = 0
+        for name, fn in km.items():
+            for c in ast.walk(fn):
+                if isinstance(c, ast.Call) and isinstance(c.func, ast.Attribute) and isinstance(c.func.value, ast.Name) and c.func.value.id in ("self", "cls") \
+                        and (c.func.attr.startswith("_from") or c.func.attr.startswith("_to")):
+                    n_calls += 1
+                    ctx.check(c.func.attr in km, "dispatch/helper-exists", f"{QK}{name} | {c.func.attr}", f"{name} calls {c.func.attr} which Key does not define")
+        ctx.floor("dispatch/helper-exists", n_calls, 15)
+        _ok_gs = True
+    with ctx.section('dispatch/guess-tags'):
+        ctx.need(_ok_gs, 'anchors of dispatch (section skipped)')
+        tags = [w for t, w in WIRE.items() if t != "EC"] + curve_keys
+        for tag in tags:
+            ctx.check(guess(gf, tag + b" AAAAB3Nza comment") == "public_openssh", "dispatch/guess-recognises-written", f"{QK}_guessStringType | {tag!r} text",
+                      f"a public OpenSSH line starting with {tag!r} is classified as {guess(gf, tag + b' AAAA')!r}")
+            blobhead = struct.pack(">L", len(tag)) + tag + b"\0\0\0\1\1"
+            ctx.check(guess(gf, blobhead) == "agentv3|blob", "dispatch/guess-recognises-written", f"{QK}_guessStringType | {tag!r} blob",
+                      f"a binary blob starting with NS({tag!r}) is classified as {guess(gf, blobhead)!r}")
+    with ctx.section('dispatch/guess-armour'):
+        ctx.need(_ok_gs, 'anchors of dispatch (section skipped)')
+        ctx.need(_ok_v1 and _ok_pem, "v1 / PEM anchors (section skipped)")
+        armour = [c.value for c in ast.walk(wv) if isinstance(c, ast.Constant) and isinstance(c.value, bytes) and c.value.startswith(b"-----BEGIN")]
+        ctx.need(armour, "v1 BEGIN line")
+        ctx.check(guess(gf, armour[0] + b"\nAAAA\n") == "private_openssh", "dispatch/guess-recognises-written", f"{QK}_guessStringType | v1 armour", "the v1 armour line is not classified private_openssh")
+        po = ctx.func(KY, "Key._fromString_PRIVATE_OPENSSH")
+        disc = [t for t in ast.walk(po) if isinstance(t, ast.Compare) and isinstance(t.ops[0], ast.Eq) and isinstance(t.left, ast.Subscript) and isinstance(t.comparators[0], ast.Constant)]
+        okd = False
+        if disc and _slice(disc[0].left):
+            lo, hi = _c(_slice(disc[0].left)[1]), _c(_slice(disc[0].left)[2])
+            okd = armour[0][lo:hi] == disc[0].comparators[0].value
+            kl = [st.value for st in ast.walk(pem_r) if isinstance(st, ast.Assign) and src(st.targets[0]) == "kind"]
+            okd = okd and bool(kl) and _slice(kl[0]) is not None and (_c(_slice(kl[0])[1]), _c(_slice(kl[0])[2])) == (lo, hi) \
+                and all((b"-----BEGIN " + k + b" PRIVATE KEY-----")[lo:hi] == k for k in kinds)
+        ctx.check(okd, "dispatch/guess-recognises-written", QK + "_fromString_PRIVATE_OPENSSH | v1 vs PEM",
+                  "the armour-line slice that tells v1 from PEM (and names the PEM kind) does not extract 'OPENSSH' / the kind from '-----BEGIN <kind> PRIVATE KEY-----'")
+    with ctx.section('dispatch/guess-lsh'):
+        ctx.need(_ok_gs, 'anchors of dispatch (section skipped)')
+        lshw = ctx.func(KY, "Key._toString_LSH")
+        br = [c.value for r in ast.walk(lshw) if isinstance(r, ast.Return) and r.value is not None for c in flatten_add(r.value)[:1] if isinstance(c, ast.Constant)]
+        ctx.check(bool(br) and guess(gf, br[0] + b"KDEwOnB1YmxpYy1rZXk=}") == "public_lsh", "dispatch/guess-recognises-written", f"{QK}_guessStringType | LSH public", "a public LSH key ({...}) is not classified public_lsh")
+        ctx.check(guess(gf, b"(11:private-key(3:dsa") == "private_lsh", "dispatch/guess-recognises-written", f"{QK}_guessStringType | LSH private", "a private LSH s-expression is not classified private_lsh")
 
 
 MUTANTS = [
